@@ -452,10 +452,12 @@ if __name__ == '__main__':
         assumptions=['Eigen reductions are left folds under the harness flags (confirmed by the bit-exact run)',
                      'g ≠ 0 in the theorems (g = 0 returns NaN on the real code — documented, run by the monitor)',
                      'max_iter_factor ≥ 0 and n·max_iter_factor within int64 (static_cast of the rounded value)'],
-        rule='fixed corner cases (g = 0 for n = 1, 2; n = 0; exact Newton / boundary / tie on the radius) + seeded '
-             'random: n ∈ {0..8}; B ∈ {PD, PSD-singular, indefinite, zero, diagonal, negative definite, λI+μuuᵀ, cI}; g random / '
-             'eigenvector-aligned / with zero entries / zero, scaled by 2^±12; Δ = 2^k, k ∈ [−30, 30] and random; '
-             'tol_scale, tol_scale_root, tol_max ∈ {0, small, 1, inf …}, max_iter_factor ∈ {0 … 10}; 35 % exact-regime '
-             '(small dyadic) inputs; 25 % Newton-TR ops with random J, γ, hessian_vec_factor ∈ {0, ½, 1}, invalid radii; '
-             'distinct = distinct op lines with n ≥ 1',
+        rule='fixed corner cases (g = 0 for n = 1, 2; n = 0; exact Newton / boundary / tie on the radius; the op of '
+             'the known underflow finding) + seeded random: n ∈ {0..8}; B ∈ {PD, PSD-singular, indefinite, zero, diagonal, '
+             'negative definite, λI+μuuᵀ, cI}; g random / eigenvector-aligned (exact eigenvectors e_i, u) / with zero '
+             'entries / zero, scaled by 2^±12; Δ = 2^k, k ∈ [−30, 30] (45 %), random over 12 decades (10 %), 2^j·‖g‖/max|B| '
+             'around the Newton/Cauchy step length (45 %); tol_scale ∈ {0 … 10}, tol_scale_root ∈ {0 … 4}, tol_max ∈ '
+             '{0 … inf}, max_iter_factor ∈ {0 … 10}; 35 % exact-regime (small dyadic) inputs; 25 % Newton-TR ops with random '
+             'ascending J (incl. empty / full), γ, hessian_vec_factor ∈ {0, ½, 1}, invalid radii (inf, NaN, 0, < eps, < 0), '
+             'positive tolerances; distinct = distinct op lines with n ≥ 1',
     ))
